@@ -308,6 +308,7 @@ def run(tier, seed):
     # the repository's own tests as drivers: every recorded execution against the monitor half of System.tla
     from .. import suite
     suite.check(v, wd)
+    suite.design_check_deviations_only(v, [("System_dev_runend.cfg", "MonitorAccepts")])
     return v.finish(
         rule="cases = one provider script per distinct predicted run of RunLoop.tla + 14 scenarios (envelopes, no provider, dead endpoint, compile failure, parallel runs, failing / succeeding compaction jobs, operations after a run) "
              "+ generated histories (random operation sequences; whole log in file order validated against LifecycleTrace); "
